@@ -105,6 +105,21 @@ for op in hist:
         except Exception as e:
             rec["error"] = type(e).__name__ + ": " + str(e)[:200]
             rec["sha"] = "error"
+    elif op[0] == "P":
+        # two solves of the same shape and precision IN FLIGHT AT ONCE (two Python threads): a solve must be re-entrant
+        import threading
+        res = {}
+        def one(tag, variant):
+            kw = C12.build_request(op[1], op[2], variant)
+            try:
+                grid, conc, flx = steady_state_transport_solver(**kw)
+                res[tag] = dict(conc=np.asarray(conc, dtype=float).ravel().tolist(), flx=np.asarray(flx, dtype=float).ravel().tolist())
+            except Exception as e:
+                res[tag] = dict(error=type(e).__name__ + ": " + str(e)[:200])
+        ts = [threading.Thread(target=one, args=("a", op[3])), threading.Thread(target=one, args=("b", op[4]))]
+        for t in ts: t.start()
+        for t in ts: t.join()
+        rec["pair"] = [res.get("a"), res.get("b")]
     elif op[0] == "F":
         fft_manager.fft2(np.ones((4, 4)))
     elif op[0] == "Z":
@@ -143,8 +158,12 @@ def model_line(hist):
         elif op[0] == "S":
             r = REQS[op[1]]
             toks += ["S", str(op[1]), str(int(r["fp"])), str(int(r["an"]))]
+        elif op[0] == "P":
+            r = REQS[op[1]]
+            toks += ["S", str(op[1]), str(int(r["fp"])), str(int(r["an"]))] * 2
         else:
             toks.append(op[0])
+    toks[1] = str(sum(2 if op[0] == "P" else 1 for op in hist))
     return " ".join(toks)
 
 
@@ -204,7 +223,8 @@ def fresh_reference(keys=(), cache={}):
 
 def check_history(hist, real):
     """returns failure dict or None"""
-    ref = fresh_reference([op_key(op) for op in hist if op[0] == "S"])
+    ref = fresh_reference([op_key(op) for op in hist if op[0] == "S"]
+                          + [(op[1], op[2] or REQS[op[1]]["prec"], v) for op in hist if op[0] == "P" for v in op[3:5]])
     first = {}
     threads = 1
     for op, rec in zip(hist, real):
@@ -212,6 +232,22 @@ def check_history(hist, real):
             threads = op[1]
         if op[0] == "W":
             threads = 1
+        if op[0] == "P":
+            for tag, variant, got in zip("ab", op[3:5], rec["pair"]):
+                r0 = ref[(op[1], op[2] or REQS[op[1]]["prec"], variant)]
+                if got is None or ("error" in got) != ("error" in r0):
+                    return fail("C12/concurrent/error", "a solve running concurrently with another solve of the same shape fails / succeeds unlike the same solve alone",
+                                None, r0.get("error", "fields"), (got or {}).get("error", "fields"), 0)
+                if "error" in got:
+                    continue
+                for name in ("conc", "flx"):
+                    a, b = np.array(got[name]), np.array(r0[name])
+                    e = float(np.max(np.abs(a - b))) / max(float(np.max(np.abs(b))), 1e-300)
+                    tol = 1e-12 if (op[2] or REQS[op[1]]["prec"]) == "double" else 1e-6
+                    if not e <= tol:
+                        return fail("C12/concurrent/%s" % name, "a solve differs from the same solve alone when another solve of the same shape is in flight in "
+                                    "the same process (request %d, variants %d and %d, threads=%d)" % (op[1], op[3], op[4], threads), None, "<= %g" % tol, e, tol)
+            continue
         if op[0] != "S":
             continue
         i, prec, variant = op_key(op)
@@ -273,12 +309,23 @@ def run(rng, tier, deep):
     for i in (0, 1, 5) if tier == "quick" else range(len(REQS)):
         hists.append([["S", i, "single"], ["S", i, "double"], ["S", i, "single"], ["S", i, "double"]])
         hists.append([["S", i, "double"], ["S", i, "single"], ["S", i, "double"]])
+    if deep:
+        # re-entrancy: pairs of solves of one shape in flight at once (only in the failing-input search: thread timing is not
+        # reproducible, so this never runs on a tree whose obligations all check)
+        for i in (0, 1, 3, 4):
+            for _ in range(3):
+                v1, v2 = int(rng.integers(N_VARIANTS)), int(rng.choice([3, 4, 5]))
+                hists.append([["T", int(rng.choice([1, 2]))], ["P", i, None, v1, v2], ["P", i, None, v2, v1], ["S", i, None, v1]])
     with ThreadPoolExecutor(max_workers=8) as ex:
         reals = list(ex.map(run_real, hists))
     outs = run_driver([model_line(h) for h in hists])
     for h, real, o in zip(hists, reals, outs):
         st["corr_cases"] += 1
-        steps = o.split(" | ")[1:]
+        allsteps = o.split(" | ")[1:]
+        steps, pos = [], 0
+        for op in h:
+            pos += 2 if op[0] == "P" else 1
+            steps.append(allsteps[pos - 1] if pos - 1 < len(allsteps) else "0 N N false false")
         for k, (op, rec, ms) in enumerate(zip(h, real, steps)):
             st["branches"]["op=" + op[0]] = st["branches"].get("op=" + op[0], 0) + 1
             t = ms.split()
